@@ -16,6 +16,10 @@ MUTATIONS = [
     ("C10", "empty-ack-delay-doubled", [(MM, "                request.transport_tuning.EMPTY_ACK_DELAY,\n                on_timeout,", "                request.transport_tuning.EMPTY_ACK_DELAY * 2,\n                on_timeout,")]),
 ]
 
+MUTATIONS += [
+    ("C10", "con-to-multicast-allowed", [(MM, "                if message.remote.is_multicast:\n                    message.mtype = NON\n", "                if False:\n                    message.mtype = NON\n"), (MM, "        if message.mtype == CON and message.remote.is_multicast:\n            raise error.ConToMulticast\n", "")]),
+]
+
 CONTROLS = [
     ("C04", "empty-ack-via-helper-rename", [(MM, "        self.log.debug(\"Sending empty ACK: %s\", reason)", "        self.log.debug(\"Sending an empty ACK: %s\", reason)")]),
     ("C10", "store-also-rst", [(MM, "        if message.mtype is not ACK:\n", "        if message.mtype not in (ACK, RST):\n")]),
